@@ -1951,6 +1951,8 @@ int sweepTzPairs(unsigned job, unsigned jobs, unsigned stride, int onlyDb, int o
       if (onlyDb >= 0) { if (db != onlyDb || z != onlyZone) continue; }
       else if ((counter++ % jobs) != job) continue;
       zones++;
+      printf("SWEEP08ZONE %c %d\n", ext ? 'x' : 'b', z);   // so that a crash inside the walk names its zone
+      fflush(stdout);
       const void* zi = ext ? (const void*)zonedbx::kZoneRegistry[z] : (const void*)zonedb::kZoneRegistry[z];
       const int z2 = (z + 1) % full;
       const void* zi2 = ext ? (const void*)zonedbx::kZoneRegistry[z2] : (const void*)zonedb::kZoneRegistry[z2];
